@@ -1,4 +1,5 @@
 import DoltVerif.Lemmas.ValCodecKeys
+import DoltVerif.Lemmas.ValCodecDate
 /-!
 C15 — Tuple encodings round-trip and sort like the SQL values they encode.
 
@@ -433,5 +434,134 @@ NaN "is greater than" itself.  NaN is not an SQL value (MySQL has none); recorde
 relies on `compare_total_preorder` for raw NaN bit patterns. -/
 theorem float_nan_breaks_order :
     compareEnc .float64 (writeU64 0x7ff8000000000001) (writeU64 0x7ff8000000000001) = .ok .gt := by decide
+
+/-! ## dates: packed year/month/day, compared as `time.Date` instants -/
+
+/-- the values a DATE column holds: the zero date, or a civil date with a year that fits 16 bits -/
+def dateDomain : DateVal → Prop
+  | .zero => True
+  | .ymd y m d => y < 65536 ∧ ValidYMD y m d
+
+theorem roundtrip_date (v : DateVal) (h : dateDomain v) : readDate (writeDate v) = .ok v := by
+  cases v with
+  | zero => decide
+  | ymd y m d =>
+    obtain ⟨hy, h1, h2, h3, h4⟩ := h
+    have hd : d < 256 := by
+      have : dim (isLeap y) m ≤ 31 := by
+        unfold dim; split <;> (try split) <;> omega
+      omega
+    unfold readDate writeDate
+    rw [readU32_writeU32]
+    simp only [bind, Except.bind, dateParts_pack y m d hy (by omega) hd]
+    have : ¬ (y = 0 ∧ m = 0 ∧ d = 0) := by omega
+    simp [this, pure, Except.pure]
+
+/-- lexicographic order of (year, month, day): the SQL order of dates -/
+def ymdCmp (y m d y' m' d' : Nat) : Ordering :=
+  if y < y' ∨ (y = y' ∧ (m < m' ∨ (m = m' ∧ d < d'))) then .lt
+  else if y = y' ∧ m = m' ∧ d = d' then .eq else .gt
+
+/-- **order_date**: the comparison of two stored civil dates (Go: `time.Date(y,m,d)` instants,
+model: `civilDays`) is the order of (year, month, day) -/
+theorem order_date (y m d y' m' d' : Nat) (hy : y < 65536) (hy' : y' < 65536)
+    (v : ValidYMD y m d) (v' : ValidYMD y' m' d') :
+    compareEnc .date (writeDate (.ymd y m d)) (writeDate (.ymd y' m' d')) = .ok (ymdCmp y m d y' m' d') := by
+  have hd : ∀ {y m d}, ValidYMD y m d → m < 256 ∧ d < 256 := by
+    intro y m d ⟨_, h2, _, h4⟩
+    have : dim (isLeap y) m ≤ 31 := by
+      unfold dim; split <;> (try split) <;> omega
+    omega
+  have h : compareEnc .date (writeDate (.ymd y m d)) (writeDate (.ymd y' m' d')) =
+      (do pure (cmp3 (dateDays (← readU32 (writeDate (.ymd y m d)))) (dateDays (← readU32 (writeDate (.ymd y' m' d')))))) := rfl
+  rw [h]
+  unfold writeDate
+  rw [readU32_writeU32, readU32_writeU32]
+  simp only [bind, Except.bind, pure, Except.pure, dateDays, dateParts_pack y m d hy (hd v).1 (hd v).2,
+    dateParts_pack y' m' d' hy' (hd v').1 (hd v').2]
+  rw [cmp3_int]
+  congr 1
+  unfold ymdCmp
+  by_cases hlt : y < y' ∨ (y = y' ∧ (m < m' ∨ (m = m' ∧ d < d')))
+  · rw [if_pos hlt]; exact specCmpInt_lt_iff.2 (civilDays_lt v v' hlt)
+  · rw [if_neg hlt]
+    by_cases heq : y = y' ∧ m = m' ∧ d = d'
+    · obtain ⟨rfl, rfl, rfl⟩ := heq
+      rw [if_pos ⟨rfl, rfl, rfl⟩]; exact specCmpInt_refl _
+    · rw [if_neg heq]
+      have hgt : y' < y ∨ (y' = y ∧ (m' < m ∨ (m' = m ∧ d' < d))) := by omega
+      exact specCmpInt_gt_iff.2 (civilDays_lt v' v hgt)
+
+/-- the zero date (`0000-00-00`, stored as 0, read back as `time.Date(0,0,0)` = Nov 30 of year −1)
+sorts before every civil date -/
+theorem order_date_zero (y m d : Nat) (hy : y < 65536) (v : ValidYMD y m d) :
+    compareEnc .date (writeDate .zero) (writeDate (.ymd y m d)) = .ok .lt := by
+  have hd : m < 256 ∧ d < 256 := by
+    obtain ⟨_, h2, _, h4⟩ := v
+    have : dim (isLeap y) m ≤ 31 := by
+      unfold dim; split <;> (try split) <;> omega
+    omega
+  have h : compareEnc .date (writeDate .zero) (writeDate (.ymd y m d)) =
+      (do pure (cmp3 (dateDays (← readU32 (writeDate .zero))) (dateDays (← readU32 (writeDate (.ymd y m d)))))) := rfl
+  rw [h]
+  unfold writeDate
+  rw [readU32_writeU32, readU32_writeU32]
+  simp only [bind, Except.bind, pure, Except.pure, dateDays, dateParts_pack y m d hy hd.1 hd.2]
+  rw [cmp3_int]
+  congr 1
+  apply specCmpInt_lt_iff.2
+  have z : (let (y, m, d) := dateParts 0; civilDays (↑y) m d) = -398 := by decide
+  simp only [] at z
+  rw [z]
+  obtain ⟨a1, a2, a3, a4⟩ := v
+  rw [civilDays_valid y m d a1 a2]
+  have t1 := year_table (isLeap y) ⟨m, by omega⟩ a1
+  have mo := daysBeforeYear_mono 0 y
+  have z0 : daysBeforeYear 0 = -366 := by decide
+  simp only [] at t1
+  simp only [Int.zero_add] at mo
+  omega
+
+example : ValidYMD 2024 2 29 ∧ dateDomain (.ymd 2024 2 29) ∧
+    writeDate (.ymd 2024 2 29) = [29, 2, 0xe8, 7] := by
+  have v : ValidYMD 2024 2 29 := ⟨by decide, by decide, by decide, by decide⟩
+  exact ⟨v, ⟨by decide, v⟩, by decide⟩
+
+/-! ## decimals — modelled (layout, `apd.Decimal.Cmp` transliterated) and compared with the
+implementation on every run; the general theorems are *stated* here and not proved (partial). -/
+
+/-- exact value order of two finite decimals `±c·10^e` (scaled to the smaller exponent) -/
+def decValueCmp (a b : Dec) : Ordering :=
+  let m := min a.exp.toInt b.exp.toInt
+  specCmpInt (a.sign * a.coeff * 10 ^ (a.exp.toInt - m).toNat) (b.sign * b.coeff * 10 ^ (b.exp.toInt - m).toNat)
+
+/-- NOT PROVED (needs `numDigits c = ⌊log10 c⌋+1` and the alignment step of `apd.Decimal.Cmp`):
+the stored comparison of finite decimals is the order of their exact values. -/
+def order_decimal_full : Prop :=
+  ∀ a b : Dec, a.form = .finite → b.form = .finite →
+    compareEnc .decimal (writeDecimal a) (writeDecimal b) = .ok (decValueCmp a b)
+
+/-- NOT PROVED (needs the big-endian/word-padding round trip): finite decimals other than −0 read
+back as written. -/
+def roundtrip_decimal_full : Prop :=
+  ∀ d : Dec, d.form = .finite → (d.neg = true → d.coeff ≠ 0) → readDecimal (writeDecimal d) = .ok d
+
+/-- what is proved: the three special values round-trip and order as NaN last, −Inf first -/
+theorem decimal_specials :
+    readDecimal (writeDecimal ⟨.nan, false, 0, 0⟩) = .ok ⟨.nan, false, 0, 0⟩ ∧
+    readDecimal (writeDecimal ⟨.infinite, false, 0, 0⟩) = .ok ⟨.infinite, false, 0, 0⟩ ∧
+    readDecimal (writeDecimal ⟨.infinite, true, 0, 0⟩) = .ok ⟨.infinite, true, 0, 0⟩ ∧
+    compareDecimal ⟨.infinite, true, 0, 0⟩ ⟨.infinite, false, 0, 0⟩ = .lt ∧
+    compareDecimal ⟨.nan, false, 0, 0⟩ ⟨.infinite, false, 0, 0⟩ = .gt ∧
+    compareDecimal ⟨.nan, false, 0, 0⟩ ⟨.nan, false, 0, 0⟩ = .eq := by decide
+
+/-- instances of the two unproved statements (tests, not proofs): 1.0 = 1.00 with different bytes,
+−12.5 < 3, 10^19 (two 64-bit words) round-trips, −0 reads back as +0 -/
+example :
+    compareEnc .decimal (writeDecimal ⟨.finite, false, 10, -1⟩) (writeDecimal ⟨.finite, false, 100, -2⟩) = .ok .eq ∧
+    writeDecimal ⟨.finite, false, 10, -1⟩ ≠ writeDecimal ⟨.finite, false, 100, -2⟩ ∧
+    compareEnc .decimal (writeDecimal ⟨.finite, true, 125, -1⟩) (writeDecimal ⟨.finite, false, 3, 0⟩) = .ok .lt ∧
+    readDecimal (writeDecimal ⟨.finite, false, 10000000000000000000, -3⟩) = .ok ⟨.finite, false, 10000000000000000000, -3⟩ ∧
+    readDecimal (writeDecimal ⟨.finite, true, 0, -2⟩) = .ok ⟨.finite, false, 0, -2⟩ := by decide
 
 end DoltVerif.C15
